@@ -12,7 +12,7 @@ use std::str::FromStr;
 
 // ------------------------------------------------------------------------------------------ C26
 
-const UNIVERSE: &[&str] = &["0 \"a\"", "1 \"a\"", "2 \"a\"", "0 \"b\"", "0 1 \"c\"", "1 2 \"c\"", "0 2 \"a\"", "0 1 2 \"b\"", "1 0 \"c\"", "2 \"c\"", "1 \"b\"", "0 \"c\""];
+const UNIVERSE: &[&str] = &["0 \"a\"", "1 \"a\"", "2 \"a\"", "0 \"b\"", "0 1 \"c\"", "1 2 \"c\"", "0 2 \"a\"", "0 1 2 \"b\"", "1 0 \"c\"", "2 \"c\"", "1 \"b\"", "0 \"c\"", "0 1 \"a\"", "2 1 \"c\""];
 
 fn c26_menu() -> Vec<String> {
     let mut menu: Vec<String> = vec![];
@@ -112,12 +112,12 @@ pub static C26: PropDef = PropDef {
     id: "C26",
     level: "exploration",
     engine: "sweep",
-    rule: "every subset of a 10-frame (thorough: 12-frame) universe over qubits {0,1,2} and names {a,b,c} x a ~130-instruction menu (pulse/capture/raw-capture blocking and not on 6 frames incl. undefined, DELAY on every qubit set with 0/1/2 names, FENCE on every qubit set and bare, RESET q and bare, SET-*/SHIFT-*, SWAP-PHASES, non-frame instructions); non-trivial = case where the instruction matches at least one frame (distinct by frame set + instruction)",
+    rule: "every subset of a 10-frame (thorough: 14-frame) universe over qubits {0,1,2} and names {a,b,c} x a ~130-instruction menu (pulse/capture/raw-capture blocking and not on 6 frames incl. undefined, DELAY on every qubit set with 0/1/2 names, FENCE on every qubit set and bare, RESET q and bare, SET-*/SHIFT-*, SWAP-PHASES, non-frame instructions); non-trivial = case where the instruction matches at least one frame (distinct by frame set + instruction)",
     assumptions: &["reference = the Quil-T rules as quoted in the property statement (mc/src/refm.rs ref_frames); bare RESET only checked for defined/disjoint"],
     run: |ctx| {
         let menu = c26_menu();
         let insts: Vec<Instruction> = menu.iter().map(|s| Instruction::from_str(s).unwrap_or_else(|e| panic!("{s}: {e}"))).collect();
-        let nf = ctx.tier.pick(10, 12);
+        let nf = ctx.tier.pick(10, 14);
         ctx.bound("frame_universe", json!(&UNIVERSE[..nf]));
         ctx.bound("menu_size", json!(menu.len()));
         for mask in 0..(1u32 << nf) {
